@@ -147,6 +147,10 @@ class KdqTreeDetector:
                     else:
                         self.drift_state = "drift"
                         self.ref_data = ary
+                elif input_type == "stream":
+                    # the divergence must stay above the critical value for
+                    # consecutive samples
+                    self._drift_counter = 0
 
     def _inner_set_reference(self, ary, input_type):
         """
